@@ -9,6 +9,8 @@ shard: f1, f2 = frame kind of ready client 1 / 2: "sub" | "unsub" | "pause" | "r
        s1, s2 = their subscription state before the round: 0 none | 1 subscribed to t | 2 subscribed to ALL
        rev    = the shuffle reverses the ready list
        f2dead = 1: client 2's connection dies on its next send (it is removed while client 1's frame is delivered)
+       accept = 1: a new TCP connection is waiting on the listening socket in the same round (the loop must accept it, register
+                   it under a fresh uid and still service the ready clients)
 symbolic: the type t (any int32 that is neither a control type nor the ALL sentinel), payload size, destination 0
 """
 from engine import mgrworld as W
@@ -35,7 +37,7 @@ class RoundSelect:
         if r:                                   # read poll of a round
             self.reads += 1
             if self.reads == 1:
-                return ([c for c in r if W._contains(self.ready, c)], [], [])
+                return (([self.mm.listen_socket] if sh("accept", 0) else []) + [c for c in r if W._contains(self.ready, c)], [], [])
             self.mm._keep_running = False       # second round: stop the loop
             return ([], [], [])
         return ([], [c for c in w if W._contains(self.writable, c)], [])   # write poll / blocking logger wait
@@ -103,9 +105,15 @@ def scenario(t, nb):
         elif s[k] == 2:
             W.subscribe(mm, clients[k], ALL)
         conns[k].incoming = frame_for(f[k], t, nb, 20 + k, 100 + k)
+    mm._uid = 3         # three connections have been accepted so far (uids 1..3 above)
     W.subscribe(mm, clients[2], t)
     if sh("f2dead", 0):
         conns[1].fail_after = 0
+    newconn = None
+    if sh("accept", 0):
+        newconn = RoundConn(9)
+        newconn.setsockopt = lambda *a, **k: None
+        mm.listen_socket.accept = lambda: (newconn, ("10.0.0.9", 4321))
     sel = RoundSelect(mm, [conns[0], conns[1]], list(conns))
     old = (M.select, M.random, M.time)
     M.select, M.random, M.time = sel, Shuffle(rev), FrozenTime()
@@ -179,6 +187,17 @@ def scenario(t, nb):
     for j in range(3):
         if W._contains(list(mm.modules.values()), clients[j]) != alive[j]:
             return False, "module %d registered=%s, expected %s" % (j, not alive[j], alive[j])
+    if newconn is not None:
+        nm = mm.modules.get(newconn)
+        if nm is None or nm.conn is not newconn:
+            return False, "the waiting connection was not accepted into the module table"
+        if nm.connected or nm.mod_id != 0 or len(nm.subs) != 0 or nm in mm.logger_modules:
+            return False, "a freshly accepted connection must be an unconnected module without id or subscriptions"
+        for m in mm.modules.values():
+            if m is not nm and m.uid == nm.uid:
+                return False, "the accepted connection got a uid another module holds"
+        if len(newconn.calls) != 0:     # (run()'s own `finally` closes every socket when the loop ends: closed says nothing here)
+            return False, "something was written to a connection that has not said anything yet"
     return True, ""
 
 
